@@ -116,11 +116,11 @@ contract('odml/base.py::Sectionable._check_no_cycle',
          requires='True',
          ensures=[],
          raises={'ValueError': 'section is self or anc(self, section)'},
-         invariants={0: '(node is None or node is self or anc(self, node)) and '
+         invariants={0: '(_w is None or _w is self or anc(self, _w)) and '
                         'implies(section is self or anc(self, section), '
-                        'node is not None and (section is node or anc(node, section)))'},
-         loop_var_types={'node': ('BaseSection', 'BaseDocument')},
-         decreases={0: 'depth(node)'},
+                        '_w is not None and (section is _w or anc(_w, section)))'},
+         loop_var_types={'_w': ('BaseSection', 'BaseDocument')},
+         decreases={0: 'depth(_w)'},
          props=('C03',),
          note='total correctness: the parent-chain walk terminates because depth(node) decreases (I4.depth_def)')
 
@@ -312,9 +312,9 @@ contract('odml/base.py::Sectionable.document.getter',
                   'implies(isDoc(self), result is self)',
                   'implies(result is not None and not isDoc(self), anc(self, result))'],
          raises={},
-         invariants={0: 'par is self or anc(self, par)'},
-         loop_var_types={'par': ('BaseSection', 'BaseDocument')},
-         decreases={0: 'depth(par)'},
+         invariants={0: '_w is self or anc(self, _w)'},
+         loop_var_types={'_w': ('BaseSection', 'BaseDocument')},
+         decreases={0: 'depth(_w)'},
          props=('C03', 'C14'),
          note='an object\'s document is the root of its parent chain; the walk terminates')
 
